@@ -616,7 +616,8 @@ def finish(run, level="model_checking", reexec=None, extra_cov=None):
     cov["notes"] = run.notes
     ev = dict(property_id=run.pid, tier=run.tier, seed=run.seed, level=level, coverage=cov,
               assumptions=run.assumptions, wall_s=round(time.time() - run.t0, 1), violations=violations)
-    if not getattr(run, "is_replay", False):      # a replay re-executes one stored plan; it is not a coverage run
+    if not getattr(run, "is_replay", False) and not os.environ.get("VERIF_NO_EVIDENCE"):
+        # (a replay re-executes one stored plan and is not a coverage run; experiments against seeded changes set VERIF_NO_EVIDENCE)
         os.makedirs(os.path.join(ROOT, "evidence"), exist_ok=True)
         with open(os.path.join(ROOT, "evidence", run.pid + ".json"), "w") as f:
             json.dump(ev, f, indent=1)
